@@ -53,7 +53,7 @@ theorem prepend_inv {f : Forest} (hi : f.Inv) (p c : Nat) : (f.prepend p c).1.In
   split
   · exact hi
   rename_i hfirst
-  obtain ⟨pv, cv, hpv, hpk, hanc, hcv, hcn, hcd⟩ := structureCheck_some (by simpa using hsc)
+  obtain ⟨pv, cv, hpv, hpk, hanc, hcv, hcn, hcd⟩ := fi_structureCheck_some (by simpa using hsc)
   obtain ⟨g, b, so⟩ := exists_sibsOut hi (mem_allHandles_of_isLive (isLive_of_value? hcv))
   rw [so.eq]
   simp only
